@@ -492,6 +492,24 @@ func upBodyInner(u upCase, oracle string) vsched.Body {
 				}
 			}
 		}
+		if u.context == "close-after" {
+			// the attempt is over (switched, refused or timed out): the application now closes the session
+			vsched.GoNamed("act:close-after", func() {
+				w.BeginAction()
+				s.rec.Sock.Close(true)
+			})
+			x.Run(x.Now() + time.Second)
+			if cr := s.rec.CloseReasons(); len(cr) != 1 || cr[0] != "forced close" {
+				x.Fail("close-count[upgrade %s close-after]: close events %v after Close(true) on a session whose upgrade attempt had ended (%s)", u.cand, cr, id)
+			}
+			if oracle == "C04" {
+				r := s.pc.Get()
+				x.Run(x.Now() + time.Second)
+				if !r.wrote || r.Code != 400 || !strings.Contains(string(r.Body), `"code":1`) {
+					x.Fail("closed-session-answers[upgrade %s close-after]: a request naming the closed session was answered %d %s instead of 400 / code 1 (%s)", u.cand, r.Code, bodyPreview(r.Body), id)
+				}
+			}
+		}
 		if oracle == "C04" {
 			w.checkRegistry("[upgrade " + u.id() + "][end]")
 		}
@@ -833,7 +851,8 @@ func init() {
 	for _, prop := range []string{"C03", "C04"} {
 		prop := prop
 		for _, cand := range []string{"websocket", "webtransport"} {
-			for _, u := range []upCase{{cand, true, "C", ""}, {cand, true, "C", "close"}, {cand, true, "PU", "close"}, {cand, false, "PU", ""}, {cand, true, "P", "close"}, {cand, true, "x", ""}, {cand, true, "P", "close-late-upgrade"}, {cand, false, "P", "close-late-upgrade"}} {
+			for _, u := range []upCase{{cand, true, "C", ""}, {cand, true, "C", "close"}, {cand, true, "PU", "close"}, {cand, false, "PU", ""}, {cand, true, "P", "close"}, {cand, true, "x", ""}, {cand, true, "P", "close-late-upgrade"}, {cand, false, "P", "close-late-upgrade"},
+				{cand, true, "C", "close-after"}, {cand, true, "x", "close-after"}, {cand, true, "P", "close-after"}} {
 				u := u
 				register(prop, "upgrade/"+strings.ReplaceAll(u.id(), " ", "_"), false, func(c *Ctx) {
 					c.ExploreDev(u.id(), Pick(c, 1, 2), Pick(c, 2, 4), upBodyFor(u, prop))
